@@ -426,6 +426,14 @@ def exec_pressure_family():
                     L += ['drive.start >= %s;' % f(s0), 'real margin;', 'margin >= 0.0;', 'margin <= 10.0;',
                           '%s + margin >= drive.start - 1.0;' % t]
                     out.insert(0, ('fe_early_%s_%d_%s_%s' % (kind, s0, mode, host), ['\n'.join(L) + '\n'], True))
+    # an atom A that starts at once; next to it a job G, or (dearer) a job H that needs A to start later: when G fails before it
+    # has started, the only alternative contradicts what has been started - the executor must refuse (execution_exception) or
+    # keep A where it started. Appended at the end: the selection of the plans above by position stays what it was
+    for gs in (5, 7):
+        for late in (3, 4):
+            L = ['predicate A() : Interval { duration >= 6.0; }', 'predicate G() : Interval { duration >= 2.0; }', 'predicate H() : Interval { duration >= 2.0; }',
+                 'goal a = new A();', '{ goal g = new G(); g.start >= %s; } [1.0] or { goal h = new H(); h.start >= %s; a.start >= %s; } [3.0]' % (f(gs), f(gs), f(late))]
+            out.append(('fe_frozen_%d_%d' % (gs, late), ['\n'.join(L) + '\n'], True))
     return out
 
 
@@ -503,6 +511,50 @@ def strict_tie_family():
             out.append(('fq_%s_%s_rule' % ('gt' if op == '>' else 'lt', shape), [head + '\npredicate P%s { %s }\ngoal g = new P(%s);\n' % (params, body, args)], True))
             out.append(('fq_%s_%s_then' % ('gt' if op == '>' else 'lt', shape), [head + '\n', '%s %s 5.0;\n' % (lhs, op)], True))
             out.append(('fq_%s_%s_disj' % ('gt' if op == '>' else 'lt', shape), [head + '\n{ %s %s 5.0; } or { %s %s 5.0; %s %s 6.0; }\n' % (lhs, op, lhs, op, lhs, nonstrict if op == '<' else '<=')], True))
+    return out
+
+
+EXTRA_EXPECT = {}     # name -> [(variable, lower bound)]: constraints of rules of goals that are in the plan (checked as sentinels)
+
+
+def deep_chain_family():
+    """C03: a goal of a predicate whose rule sits two or three levels up the chain of super-predicates (the intermediate
+    predicates with or without bodies of their own): the rule must be applied - its constraint holds on the goal's argument
+    and its sub-goal is achieved; (name, parts, True) + EXTRA_EXPECT"""
+    out = []
+    for depth in (2, 3):
+        for mids in ('empty', 'body'):
+            for host in ('top', 'class'):
+                P = ['predicate Leaf(real k) { k >= 0.0; }', 'predicate Base(real n) { n >= 1.0; goal l = new Leaf(k:n); }']
+                prev = 'Base'
+                for d in range(1, depth + 1):
+                    body = ' n <= 100.0; ' if mids == 'body' else ' '
+                    P.append('predicate M%d() : %s {%s}' % (d, prev, body))
+                    prev = 'M%d' % d
+                if host == 'class':
+                    L = ['class Box {'] + ['  ' + x for x in P] + ['}', 'Box bx = new Box();', 'real v; v >= -5.0; v <= 5.0;', 'goal t = new bx.%s(n:v);' % prev]
+                else:
+                    L = P + ['real v; v >= -5.0; v <= 5.0;', 'goal t = new %s(n:v);' % prev]
+                name = 'fd_%d_%s_%s' % (depth, mids, host)
+                EXTRA_EXPECT[name] = [('v', 1)]
+                out.append((name, ['\n'.join(L) + '\n'], True))
+    return out
+
+
+def enum_member_family():
+    """C02: a numeric member read through an object variable with three candidates that hold different values, in every
+    order of creation (the helper bounds of the derived variable are the minimum / maximum over the candidates): a
+    constraint that only the largest / smallest value satisfies; int and real; (name, parts, True)"""
+    out = []
+    vals = {'a': 5, 'b': 3, 'c': 4}
+    for typ in ('int', 'real'):
+        num = (lambda v: str(v)) if typ == 'int' else f
+        for k, order in enumerate(itertools.permutations('abc')):
+            for side in ('max', 'min'):
+                L = ['class Loc { %s x; Loc(%s x) : x(x) {} }' % (typ, typ)]
+                L += ['Loc %s = new Loc(%s);' % (o, num(vals[o])) for o in order]
+                L += ['Loc l;', 'l.x >= %s;' % num(5) if side == 'max' else 'l.x <= %s;' % num(3)]
+                out.append(('fm_%s_%d_%s' % (typ, k, side), ['\n'.join(L) + '\n'], True))
     return out
 
 
